@@ -261,7 +261,7 @@ func c05(c *Ctx) {
 		c.Expect(okStore, nil, cp, "merged-item-at-startIdx", "the merged buffer is not stored at the start of the uncompacted suffix")
 		// loop variable starts at startIdx and is bounded by len(backlog)
 		okLoop := false
-		for _, in := range instrsWhere(cp, func(in ssa.Instruction) bool { p, ok := in.(*ssa.Phi); return ok && p.Comment == "i" }) {
+		for _, in := range instrsWhere(cp, func(in ssa.Instruction) bool { _, ok := in.(*ssa.Phi); return ok }) {
 			p := in.(*ssa.Phi)
 			for _, e := range p.Edges {
 				if startIdx(e) {
